@@ -1,8 +1,21 @@
 package main
 
 import (
+	"verifharness/c11plan"
 	"verifharness/emit"
 	"verifharness/pipeline"
 )
 
-func main() { emit.Main("C11", pipeline.RunFor("C11")) }
+func main() {
+	emit.Main("C11", func(seed int64, tier, outDir string) (*emit.Summary, error) {
+		sum, err := pipeline.RunFor("C11")(seed, tier, outDir)
+		if err != nil {
+			return nil, err
+		}
+		// supplementary plan-level stream: both kinds of dependency annotations
+		if err := c11plan.AddCases(sum, seed, tier, outDir); err != nil {
+			return nil, err
+		}
+		return sum, nil
+	})
+}
